@@ -1,5 +1,6 @@
 #!/bin/bash
-# usage: tools/seedtest.sh <PROP> <k> [props-to-check...]
+# usage: [VROOT=/tmp/vseed] tools/seedtest.sh <PROP> <k> [props-to-check...]   (VROOT: a copy of /verif to run the checks from, so that
+# regenerating Gen/ from the scratch tree does not disturb work going on in /verif)
 # Confirms a seeded change (/tmp/seed/<PROP>/m<k>) in its scratch worktree: applies, builds, runs the full test suite,
 # runs the demo (must FAIL with / PASS without), runs ./check for the given properties (default: PROP) against the
 # patched worktree via VERIF_REPO, reverts, and records everything in /verif/seeded/<PROP>-m<k>/.
@@ -7,6 +8,7 @@ set -u
 P=$1; K=$2; shift 2
 CHECKS=${@:-$P}
 export GOFLAGS="-mod=mod -trimpath" GOPROXY=off GOSUMDB=off GOTOOLCHAIN=local
+VROOT=${VROOT:-/verif}
 S=/tmp/seed/$P; WT=$S/wt; M=$S/m$K; OUT=/verif/seeded/$P-m$K
 mkdir -p $OUT
 git -C $WT reset -q --hard; git -C $WT clean -fdq
@@ -22,11 +24,12 @@ echo "== build rc=$RC_BUILD tests rc=$RC_TEST fails=$NFAIL"
 echo "== demo clean rc=$RC_CLEAN patched rc=$RC_PATCHED"; tail -3 $OUT/demo_patched.txt
 RES=""
 for C in $CHECKS; do
-  (cd /verif && VERIF_REPO=$WT ./check $C --tier quick > $OUT/check_$C.txt 2>&1); RC=$?
+  (cd $VROOT && VERIF_REPO=$WT ./check $C --tier quick > $OUT/check_$C.txt 2>&1); RC=$?
   V=$(grep "^VIOLATION\|^OK\|^KNOWN" $OUT/check_$C.txt | tr '\n' ';')
   echo "== check $C rc=$RC :: $V"
   RP=$(grep -o "replay=[^ ]*" $OUT/check_$C.txt | head -1 | cut -d= -f2)
   [ -n "$RP" ] && [ -f "$RP" ] && cp "$RP" $OUT/replay_$C.json
+  [ "$VROOT" != /verif ] && sed -i "s|$VROOT/|/verif/|g" $OUT/check_$C.txt
   RES="$RES{\"check\":\"$C\",\"rc\":$RC,\"verdict\":\"$(echo $V | sed 's/"/\\"/g')\"},"
 done
 git -C $WT reset -q --hard; git -C $WT clean -fdq
@@ -40,5 +43,5 @@ cat > $OUT/meta.json <<EOF
  "needs_to_manifest":"see README.md"}
 EOF
 # regenerate Gen files from /repo again for the checked properties (they were regenerated from the scratch tree)
-for C in $CHECKS; do (cd /verif && ./check $C --tier quick > /dev/null 2>&1); done
+[ "$VROOT" = /verif ] && for C in $CHECKS; do (cd /verif && ./check $C --tier quick > /dev/null 2>&1); done
 echo "== recorded in $OUT"
